@@ -10,7 +10,8 @@ LEVEL = "proof"
 CASE_TIMEOUT = 60
 RULE = ("rule trees nested 1..3 levels (no `&`); selector lists of 1..4 complex selectors mixing placeholder-free "
         "selectors, selectors with `%name` in any compound, and selector pseudo-classes (:not, :is, :where, :has, "
-        ":matches, :any, vendor-prefixed -moz-any / -webkit-any, nested :not(:is(..)) / :is(:not(..))) whose argument "
+        ":matches, :any, vendor-prefixed -moz-any / -webkit-any, nested :not(:is(..)) / :is(:not(..)), and every other "
+        "selector-taking pseudo: ::slotted, ::cue, :current, :host, :host-context, :nth-child(2n+1 of S), unknown names) whose argument "
         "lists mix placeholders and normal selectors; rules whose selectors are all placeholders; both styles. "
         "Non-trivial = some placeholder occurs.")
 TRUSTED = ["props/_sel.py: the AST object printed as SCSS text (for rsass) and as a term (for the model)",
@@ -22,6 +23,9 @@ ASSUMPTIONS = ["`similar arguments` = every pseudo-class with a selector-list ar
 
 PHS = ["p", "q", "ph-x"]
 SELPSEUDO = ["not", "not", "is", "is", "where", "has", "matches", "any", "-moz-any", "-webkit-any", "-x-not"]
+# selector-taking pseudo-classes and pseudo-elements beyond the is/not family: (name, is `::element`)
+OTHERSEL = [("slotted", True), ("cue", True), ("current", False), ("host", False), ("host-context", False),
+            ("-vendor-any", False), ("foo", False), ("part-like", True), ("nth-child", False), ("nth-last-of-type", False)]
 
 
 def g_compound(rng, ph_p, depth=0):
@@ -49,13 +53,20 @@ def g_compound(rng, ph_p, depth=0):
         elif j < 0.68:
             c.pseudos.append(Pseudo(rng.choice(["before", "after"]), True))
         elif depth < 2:
-            nm = rng.choice(SELPSEUDO)
+            if rng.random() < 0.45:
+                nm, elem = rng.choice(OTHERSEL)
+            else:
+                nm, elem = rng.choice(SELPSEUDO), False
             arg = []
             for _ in range(rng.choice([1, 1, 2, 3])):
                 first = g_compound(rng, 0.45, depth + 1)
                 steps = [(rng.choice("ap"), g_compound(rng, 0.2, depth + 1))] if rng.random() < 0.2 else []
+                if nm.startswith("nth-"):
+                    # `2n+1 of S`: the argument is the complex selector `2n + 1 of S`
+                    steps = [("j", Compound(elem="1")), ("a", Compound(elem="of")), ("a", first)] + steps
+                    first = Compound(elem="2n")
                 arg.append(Sel(first, steps))
-            c.pseudos.append(Pseudo(nm, False, ("L", arg)))
+            c.pseudos.append(Pseudo(nm, elem, ("L", arg)))
         else:
             c.classes.append(rng.choice(CLASSES))
     if c.is_empty():
@@ -127,6 +138,16 @@ def fixed_cases():
     add("not-alone", [Rule([S(el("a"), [("a", C(pseudos=[sel("not", S(ph()))]))])], [Decl("x")])])
     add("not-is", [Rule([S(el("a", pseudos=[sel("not", S(C(pseudos=[sel("is", S(ph()))])))]))], [Decl("x")])])
     add("is-not", [Rule([S(el("a", pseudos=[sel("is", S(C(pseudos=[sel("not", S(ph()))])))]))], [Decl("x")])])
+    sele = lambda n, *args: P(n, True, ("L", list(args)))
+    add("slotted-alone", [Rule([S(C(pseudos=[sele("slotted", S(ph()))]))], [Decl("x")]), Rule([S(el("z"))], [Decl("y")])])
+    add("slotted-list", [Rule([S(C(classes=["x"])), S(el("b", pseudos=[sele("slotted", S(ph()), S(C(classes=["c"])))])),
+                               S(ph("q"), [("a", C(classes=["y"]))]), S(C(classes=["z"]))], [Decl("x")])])
+    add("current", [Rule([S(C(pseudos=[sel("current", S(ph()))]), [("a", el("d"))])], [Decl("x")])])
+    add("cue", [Rule([S(el("video", pseudos=[sele("cue", S(ph()), S(el("i")))]))], [Decl("x")])])
+    add("not-slotted", [Rule([S(el("e", pseudos=[sel("not", S(C(pseudos=[sele("slotted", S(ph()))])))]))], [Decl("x")])])
+    add("nth-of", [Rule([S(el("li", pseudos=[sel("nth-child", S(C(elem="2n"), [("j", C(elem="1")), ("a", C(elem="of")), ("a", ph())]))])),
+                         S(el("k"))], [Decl("x")])])
+    add("unknown-name", [Rule([S(el("a", pseudos=[sel("foo", S(ph()), S(el("b")))]))], [Decl("x")])])
     add("nested", [Rule([S(el("a")), S(ph())], [Decl("x"), Rule([S(ph("r"), [("p", el("b"))]), S(el("c"))], [Decl("y")])])])
     return out
 
